@@ -276,4 +276,79 @@ theorem datesStep_mono (a : String) (fu ins : Int) (t : TxIn) :
   · rw [if_neg hi]
     exact ⟨fu, rfl, by omega, fun h => absurd h hi⟩
 
+
+/-- the fold's first usage is a lower bound of the timestamps of the involving transactions
+    (and of the starting value) -/
+theorem foldl_datesStep_bound (a : String) (h : List TxIn) (cur : Option (Int × Int)) (fu ins : Int)
+    (hr : h.foldl (datesStep a) cur = some (fu, ins)) :
+    (∀ t ∈ h, t.involves a = true → fu ≤ t.timestamp) ∧ (∀ f0 i0, cur = some (f0, i0) → fu ≤ f0) := by
+  induction h generalizing cur with
+  | nil =>
+    simp only [List.foldl_nil] at hr
+    refine ⟨fun t ht => by simp at ht, ?_⟩
+    intro f0 i0 hc
+    rw [hc] at hr
+    simp only [Option.some.injEq, Prod.mk.injEq] at hr
+    omega
+  | cons t h ih =>
+    simp only [List.foldl_cons] at hr
+    obtain ⟨h1, h2⟩ := ih _ hr
+    by_cases hi : t.involves a = true
+    · cases cur with
+      | none =>
+        have hs : datesStep a none t = some (t.timestamp, t.insertedAt) := by simp [datesStep, hi]
+        have hb := h2 _ _ hs
+        refine ⟨?_, fun f0 i0 hc => by simp at hc⟩
+        intro x hx hxi
+        rcases List.mem_cons.mp hx with rfl | hx
+        · exact hb
+        · exact h1 x hx hxi
+      | some p =>
+        obtain ⟨f0, i0⟩ := p
+        have hs : datesStep a (some (f0, i0)) t = some (if t.timestamp < f0 then t.timestamp else f0, i0) := by
+          simp [datesStep, hi]
+        have hb := h2 _ _ hs
+        refine ⟨?_, ?_⟩
+        · intro x hx hxi
+          rcases List.mem_cons.mp hx with rfl | hx
+          · split at hb <;> omega
+          · exact h1 x hx hxi
+        · intro f1 i1 hc
+          simp only [Option.some.injEq, Prod.mk.injEq] at hc
+          split at hb <;> omega
+    · have hs : datesStep a cur t = cur := by simp [datesStep, hi]
+      rw [hs] at h2
+      refine ⟨?_, h2⟩
+      intro x hx hxi
+      rcases List.mem_cons.mp hx with rfl | hx
+      · exact absurd hxi hi
+      · exact h1 x hx hxi
+
+/-- … and it is attained -/
+theorem foldl_datesStep_attained (a : String) (h : List TxIn) (cur : Option (Int × Int)) (fu ins : Int)
+    (hr : h.foldl (datesStep a) cur = some (fu, ins)) :
+    (∃ t ∈ h, t.involves a = true ∧ t.timestamp = fu) ∨ (∃ i0, cur = some (fu, i0)) := by
+  induction h generalizing cur with
+  | nil => simp only [List.foldl_nil] at hr; exact Or.inr ⟨ins, hr⟩
+  | cons t h ih =>
+    simp only [List.foldl_cons] at hr
+    rcases ih _ hr with ⟨x, hx, hxi, hxt⟩ | ⟨i0, hc⟩
+    · exact Or.inl ⟨x, List.mem_cons_of_mem _ hx, hxi, hxt⟩
+    · by_cases hi : t.involves a = true
+      · cases cur with
+        | none =>
+          simp [datesStep, hi] at hc
+          exact Or.inl ⟨t, List.mem_cons_self, hi, hc.1⟩
+        | some p =>
+          obtain ⟨f0, j0⟩ := p
+          simp only [datesStep, hi, if_true, Option.some.injEq, Prod.mk.injEq] at hc
+          by_cases hlt : t.timestamp < f0
+          · simp only [hlt, if_true] at hc
+            exact Or.inl ⟨t, List.mem_cons_self, hi, hc.1⟩
+          · simp only [hlt, if_false] at hc
+            exact Or.inr ⟨j0, by rw [← hc.1]⟩
+      · have hs : datesStep a cur t = cur := by simp [datesStep, hi]
+        rw [hs] at hc
+        exact Or.inr ⟨i0, hc⟩
+
 end Ledger.Spec
